@@ -1127,6 +1127,9 @@ func TestGen(t *testing.T) {
 					if f.Layout&4 != 0 {
 						lbl = append(lbl, "layout:go-generate-and-doc-before-package")
 					}
+					if f.Layout&8 != 0 && f.Layout&4 == 0 && !strings.Contains(f.Header, "+build") {
+						lbl = append(lbl, "layout:constraint-glued-to-package-clause")
+					}
 					ll := binLogLine{H: specHash(s) + gc.mode, NT: genNonTrivial(prop, gc, s, f), N: 1, Labels: lbl, Other: others}
 					others = nil
 					if ll.NT && samples < 2 {
